@@ -22,6 +22,15 @@ Line protocol of the C15 driver.
      del <i> <k>                           del paths[i].phasepoints[k]
      cpa <i> <j> <k>                       paths[i].append(paths[j].phasepoints[k].copy())
      empty <i> <ml> <t0>                   paths.append(paths[i].empty_path(maxlen=ml, time_origin=t0))
+     newsub <ml> <t0> <c>                  paths.append(<subclass c of Path>(ml, t0))
+     pattr <i> <k>                         setattr(paths[i], "x<k>", 1)
+     eq <i> <j> / ne <i> <j>               paths[i] == paths[j] / paths[i] != paths[j]
+     shoot <i> <u>                         paths[i].get_shooting_point(stub generator: lo + u mod (hi-lo))
+     upd <i> <list ekin> <list vpot>       paths[i].update_energies(ekin, vpot)
+     emptyd <i> (omit|<ml>) (omit|<t0>)    empty_path with omitted keywords
+     seta <i> <k> (pos|vel|box|temp) <x>   in-place paths[i].phasepoints[k].pos[0] = x
+     adr <i>                               sorted(paths[i].adress)
+     revvel <i> <k>                        paths[i].reverse_velocities(paths[i].phasepoints[k])
   seq <target> <list intf> <list ops>      classifySeq (the pure function of an order list)
   cls <list intf> <list ops>      ordermin / ordermax / check_interfaces
   sp <left> <right|-> <list ops>  get_start_point
@@ -145,6 +154,50 @@ def parseOp (toks : List String) : Option (Op × List String) :=
     match parseNat? i, parseNat? k with
     | some i, some k => some (.del i k, rest)
     | _, _ => none
+  | "newsub" :: ml :: t :: c :: rest =>
+    match optInt? ml, parseInt? t, parseNat? c with
+    | some ml, some t, some c => some (.newSub ml t c, rest)
+    | _, _, _ => none
+  | "pattr" :: i :: k :: rest =>
+    match parseNat? i, parseNat? k with
+    | some i, some k => some (.pattr i k, rest)
+    | _, _ => none
+  | "eq" :: i :: j :: rest =>
+    match parseNat? i, parseNat? j with
+    | some i, some j => some (.eq i j, rest)
+    | _, _ => none
+  | "ne" :: i :: j :: rest =>
+    match parseNat? i, parseNat? j with
+    | some i, some j => some (.ne i j, rest)
+    | _, _ => none
+  | "shoot" :: i :: u :: rest =>
+    match parseNat? i, parseNat? u with
+    | some i, some u => some (.shoot i u, rest)
+    | _, _ => none
+  | "upd" :: i :: rest =>
+    match parseNat? i, takeList parseInt? rest with
+    | some i, some (ek, rest') =>
+      match takeList parseInt? rest' with
+      | some (vp, rest'') => some (.upd i ek vp, rest'')
+      | none => none
+    | _, _ => none
+  | "emptyd" :: i :: ml :: t :: rest =>
+    let ml' : Option (Option (Option Int)) := if ml = "omit" then some none else (optInt? ml).map some
+    let t' : Option (Option Int) := if t = "omit" then some none else (parseInt? t).map some
+    match parseNat? i, ml', t' with
+    | some i, some ml, some t => some (.emptyDef i ml t, rest)
+    | _, _, _ => none
+  | "seta" :: i :: k :: a :: x :: rest =>
+    let a' : Option Arr := match a with
+      | "pos" => some .pos | "vel" => some .vel | "box" => some .box | "temp" => some .temp | _ => none
+    match parseNat? i, parseNat? k, a', parseInt? x with
+    | some i, some k, some a, some x => some (.setArrItem i k a x, rest)
+    | _, _, _, _ => none
+  | "adr" :: i :: rest => (parseNat? i).map (fun i => (.adr i, rest))
+  | "revvel" :: i :: k :: rest =>
+    match parseNat? i, parseNat? k with
+    | some i, some k => some (.revVel i k, rest)
+    | _, _ => none
   | _ => none
 
 partial def parseOps (toks : List String) (acc : List Op) : Option (List Op) :=
@@ -164,9 +217,9 @@ def idxIn (xs : List Nat) (x : Nat) : Nat :=
   | [] => 0
   | y :: t => if y = x then 0 else 1 + idxIn t x
 
-def showVals (v : Vals) (oo : Nat) : String :=
+def showVals (v : Vals) (oo : Nat) (ids : String) : String :=
   s!"S {v.config.1} {v.config.2} o{oo} {showList toString v.order} {if v.velRev then 1 else 0} " ++
-  s!"{showOpt v.ekin} {showOpt v.vpot} {v.pos} {v.vel} {v.box} {v.temp}"
+  s!"{showOpt v.ekin} {showOpt v.vpot} {v.pos} {v.vel} {v.box} {v.temp} {ids}"
 
 def dump (m : Machine) : String :=
   let refs := firstSeen (m.paths.flatMap (·.frames))
@@ -175,7 +228,13 @@ def dump (m : Machine) : String :=
   let ps := m.paths.map (fun p =>
     s!"P {showOpt p.maxlen} {p.status} {showOpt p.generated} {showOpt p.pathNumber} {showOpt p.weights} " ++
     s!"{p.weight} {p.timeOrigin} {showList (fun r => "r" ++ toString (idxIn refs r)) p.frames}")
-  let ss := syss.map (fun s => showVals s.v (idxIn oos s.orderObj))
+  -- identities of the array / dict objects, canonical per kind (order of first appearance)
+  let ps_ := firstSeen (syss.map (·.posObj))
+  let vs_ := firstSeen (syss.map (·.velObj))
+  let bs_ := firstSeen (syss.map (·.boxObj))
+  let ts_ := firstSeen (syss.map (·.tempObj))
+  let ss := syss.map (fun s => showVals s.v (idxIn oos s.orderObj)
+    s!"p{idxIn ps_ s.posObj} v{idxIn vs_ s.velObj} b{idxIn bs_ s.boxObj} t{idxIn ts_ s.tempObj}")
   String.intercalate " ; " (ps ++ ss)
 
 def handle (toks : List String) : String :=
